@@ -46,6 +46,9 @@ def run(P, rep, tier):
     from . import c02
 
     rep.attempt(c02.r3_typestate, P, rep, ctx)
+    # "merging leaves the source record unchanged": the merge target is created exclusively, never by truncating whatever
+    # carries that name (C02.R2: no internal open in a truncating mode)
+    rep.attempt(c02.r2_no_internal_truncation, P, rep, ctx)
     # "the merged tree equals the overlay view": what merge copies is what the overlay resolution shows (child resolution and
     # marker rules of C01.R1 / C01.R4)
     from . import c01
